@@ -32,7 +32,7 @@ def run(chk, tier, seed):
     else:
         scns = storegen.small_forests_exhaustive(4, batches=(1, 2, 3, storegen.BIG)) + \
             storegen.forest_scenarios(800, seed, maxnodes=5, maxtrees=6)
-    scns = scns + storegen.c09_window_scenarios(tier, seed)
+    scns = scns + storegen.c09_window_scenarios(tier, seed) + storegen.sibling_confusion_scenarios()
     st = {}
     n, ndrift = sc.run_and_validate(chk, scns, CLAUSES, stats=st)
     from storecli import cli_family
@@ -43,7 +43,9 @@ def run(chk, tier, seed):
            "traces_validated_against_impl": n, "evaluations": n, "distinct_nontrivial": nontriv,
            "rule": "all pairs of call-tree shapes up to the tier's size (same / different workflow name) x batch sizes, "
                    "plus seeded forests of 1-5 traces with repeated shapes, each in four presentations (order of ingestion, batch size); plus stores with time buffer 1-2 holding traces "
-                   "before / after / straddling the buffered window next to same-shaped traces inside it; non-trivial = store "
+                   "before / after / straddling the buffered window next to same-shaped traces inside it; plus stores in which siblings of "
+                   "one span type carry different sub-trees (the shape in both sibling orders next to the shapes it must not be "
+                   "confused with); non-trivial = store "
                    "with at least two traces",
            "cli_histories": ncli, "cli_process_runs": ncliruns, "model_runs": m["runs"], "model_drift_executions": ndrift, "conformance_action_counts": st.get("actions", {}),
            "exhaustive": False}
